@@ -83,4 +83,140 @@ def plan(prop, tier):
                                                         sinks=["probe", "probe", "probe"], maxData=1,
                                                         maxTop=4 if q else 5, maxPull=0, allowFail=False), None))
         return fams
+    q = tier == "quick"
+    if prop == "C14":
+        pb = dict(maxData=2 if q else 3, maxTop=4 if q else 5, maxPull=3 if q else 4, allowFail=True, c14=True)
+        fams = []
+        for kind, par in (("map", dict(f="inc")), ("filter", dict(p="even")), ("filter", dict(p="none")),
+                          ("scan", dict(r="add", seed=0)), ("take", dict(n=1)), ("take", dict(n=2)),
+                          ("skip", dict(n=1)), ("skip", dict(n=2))):
+            nm = kind + str(par.get("n", par.get("p", ""))) + "_pull"
+            fams.append((nm, scen.with_bounds(scen.unary(kind, mode="pull", **par), kind, **pb), None))
+        fams.append(("concat2_pull", scen.with_bounds(scen.nary("concat", 2, mode="pull"), "concat", maxData=1,
+                                                     maxTop=4, maxPull=3, allowFail=True, c14=True), None))
+        fams.append(("concat3_pull", scen.with_bounds(scen.nary("concat", 3, mode="pull"), "concat", maxData=1,
+                                                     maxTop=3 if q else 4, maxPull=3, allowFail=False, c14=True), None))
+        fams.append(("flatten2_pull", scen.with_bounds(scen.flatten_g(2, "pull", "pull"), "flatten", maxData=2,
+                                                      maxTop=4, maxPull=3, allowFail=q is False, c14=True), None))
+        fams.append(("fromiter_c14", [scen.with_bounds(from_iter_g(xs), "from_iter", maxTop=4, maxPull=4, c14=True)
+                                      for xs in ([], [1], [1, 2], None)], None))
+        return fams
+    if prop == "C15":
+        lens = ([], [1], [1, 2], [1, 2, 3], None)
+        b1 = dict(maxTop=5 if q else 6, maxPull=5 if q else 6)
+        fams = [("fromiter", [scen.with_bounds(from_iter_g(xs), "from_iter", **b1) for xs in lens],
+                 scen.with_bounds(from_iter_g([1, 2, 3, 4, 5, 6]), "from_iter", maxTop=8, maxPull=9, sinkErr=True)),
+                ("fromiter_serr", [scen.with_bounds(from_iter_g(xs), "from_iter", maxTop=3, maxPull=3, sinkErr=True)
+                                   for xs in lens], None),
+                ("fromiter_2sinks", [scen.with_bounds(from_iter_g(xs), "from_iter", sinks=["probe", "probe"],
+                                                      maxTop=4 if q else 5, maxPull=2) for xs in ([1], [1, 2], None)], None)]
+        return fams
+    if prop == "C16":
+        fams = []
+        for period in (1, 2):
+            for ns in (1, 2) if q else (1, 2, 3):
+                g = {"nodes": [{"id": 1, "kind": "interval", "period": period}], "root": 1}
+                fams.append((f"interval_p{period}_s{ns}",
+                             scen.with_bounds(g, "interval", sinks=["probe"] * ns, maxTop=(6 if ns < 3 else 5) if q else (8 if ns < 3 else 6),
+                                              maxPull=0, allowFail=True), None))
+        g = {"nodes": [{"id": 1, "kind": "interval", "period": 3}], "root": 1}
+        fams[0] = (fams[0][0], fams[0][1], scen.with_bounds(g, "interval", sinks=["probe"] * 3, maxTop=10, maxPull=1,
+                                                          allowFail=True, sinkErr=True))
+        return fams
+    if prop == "C06":
+        return pipeline_plan(tier)
     return []
+
+
+def from_iter_g(xs):
+    if xs is None:
+        return {"nodes": [{"id": 1, "kind": "from_iter", "unbounded": True, "limit": 12}], "root": 1}
+    return {"nodes": [{"id": 1, "kind": "from_iter", "items": list(xs)}], "root": 1}
+
+
+# ------------------------------------------------------------------------------------------------
+# C06: pipelines  from_iter(xs) |> stage* |> tap |> for_each(f)
+# ------------------------------------------------------------------------------------------------
+STAGES = ([("map", dict(f=f)) for f in ("inc", "dbl")]
+          + [("filter", dict(p=p)) for p in ("even", "odd", "none")]
+          + [("scan", dict(r="add", seed=0)), ("scan", dict(r="lin", seed=5))]
+          + [("take", dict(n=n)) for n in (1, 2)] + [("skip", dict(n=n)) for n in (1, 2)]
+          + [("flatmap", dict(g=g)) for g in ("rep", "upto", "oddonly")]
+          + [("concat_r", dict(ys=ys)) for ys in ([], [7, 8])] + [("concat_l", dict(ys=[9]))])
+
+
+def build_pipeline(xs, stages):
+    nodes = []
+    if xs is None:
+        nodes.append({"id": 1, "kind": "from_iter", "unbounded": True, "limit": 12})
+    else:
+        nodes.append({"id": 1, "kind": "from_iter", "items": list(xs)})
+    cur = 1
+    for kind, par in stages:
+        if kind in ("concat_r", "concat_l"):
+            nodes.append({"id": len(nodes) + 1, "kind": "from_iter", "items": list(par["ys"])})
+            other = len(nodes)
+            ups = [cur, other] if kind == "concat_r" else [other, cur]
+            nodes.append({"id": len(nodes) + 1, "kind": "concat", "ups": ups})
+        else:
+            nodes.append(dict({"id": len(nodes) + 1, "kind": kind, "ups": [cur]}, **par))
+        cur = len(nodes)
+    return scen.with_bounds({"nodes": nodes, "root": cur}, "pipeline", sinks=["foreach"], maxTop=1, maxPull=0)
+
+
+def all_lists(alpha, maxlen):
+    out = [[]]
+    frontier = [[]]
+    for _ in range(maxlen):
+        frontier = [l + [a] for l in frontier for a in alpha]
+        out += frontier
+    return out
+
+
+def stage_seqs(depth):
+    out = [[]]
+    frontier = [[]]
+    for _ in range(depth):
+        frontier = [s + [st] for s in frontier for st in STAGES]
+        out += frontier
+    return out
+
+
+QUICK_STAGES = [("map", dict(f="inc")), ("filter", dict(p="even")), ("scan", dict(r="lin", seed=5)),
+                ("take", dict(n=2)), ("skip", dict(n=1)), ("flatmap", dict(g="upto")),
+                ("flatmap", dict(g="oddonly")), ("concat_r", dict(ys=[7, 8])), ("concat_l", dict(ys=[9]))]
+
+
+def terminates_on_unbounded(sq):
+    """1,2,3,... needs a take on the main path, and no stage before it that can starve it"""
+    kinds = [k for k, _ in sq]
+    if "take" not in kinds:
+        return False
+    before = sq[:kinds.index("take")]
+    return not any(k == "concat_r" or (k == "filter" and p.get("p") == "none") for k, p in before)
+
+
+def pipeline_plan(tier, chunk=150):
+    import random
+    q = tier == "quick"
+    cfgs = []
+    if q:
+        inputs = all_lists([1, 2], 2) + [[1, 2, 3]]
+        seqs = [[]] + [[s] for s in STAGES] + [[a, b] for a in QUICK_STAGES for b in QUICK_STAGES]
+    else:
+        inputs = all_lists([1, 2, 3], 3)
+        seqs = stage_seqs(2)
+    for sq in seqs:
+        for xs in inputs:
+            cfgs.append(build_pipeline(xs, sq))
+        if terminates_on_unbounded(sq):
+            cfgs.append(build_pipeline(None, sq))
+    if not q:
+        rnd = random.Random(7)
+        for _ in range(1500):
+            sq = [rnd.choice(STAGES) for _ in range(3)]
+            cfgs.append(build_pipeline(rnd.choice(inputs), sq))
+    fams = []
+    for i in range(0, len(cfgs), chunk):
+        fams.append((f"pipes{i // chunk}", cfgs[i:i + chunk], None))
+    return fams
